@@ -42,6 +42,9 @@ LoadVerdict(e) ==
   ELSE IF e.self = <<>> THEN <<"load:config-file-own-pattern-missing", 0>>
   ELSE IF \E q \in 1..Len(e.selfwant) : ~\E r \in 1..Len(e.selfraw) : e.selfraw[r] = e.selfwant[q] THEN <<"load:explicit-patterns-of-the-config-file-lost", e.selfraw>>
   ELSE IF ~\E q \in 1..Len(e.self) : Search(Compile(e.self[q]), e.cvline).ok THEN <<"load:own-pattern-does-not-match-current-version-line", e.cvline>>
+  \* ... and it is a pattern for the line, not the line as it stands: it finds the line again when the line holds the next version (e.cvline2, optional)
+  ELSE IF "cvline2" \in DOMAIN e /\ ~\E q \in 1..Len(e.self) : Search(Compile(e.self[q]), e.cvline).ok /\ Search(Compile(e.self[q]), e.cvline2).ok
+       THEN <<"load:own-pattern-is-tied-to-the-current-value", e.cvline2>>
   ELSE Good
 
 Verdict(e) == CASE e.ev = "load" -> LoadVerdict(e) [] e.ev = "init" -> InitVerdict(e) [] OTHER -> <<"unknown-event", e.ev>>
